@@ -13,6 +13,8 @@ import (
 	"github.com/evanoberholster/imagemeta"
 	"github.com/evanoberholster/imagemeta/exif2"
 	"github.com/evanoberholster/imagemeta/imagehash"
+	"github.com/evanoberholster/imagemeta/imagehash/transforms"
+	"github.com/evanoberholster/imagemeta/imagehash/transforms32"
 	"github.com/evanoberholster/imagemeta/isobmff"
 	"github.com/evanoberholster/imagemeta/jpeg"
 	"verif/core"
@@ -264,5 +266,331 @@ func init() {
 		close(start)
 		wg.Wait()
 		JSON(obs, results)
+	})
+}
+
+func init() {
+	// median: the threshold functions on a coefficient sequence (and tiled to the fixed sizes)
+	Register("median", func(op *core.Op, obs *core.Obs) {
+		var a struct {
+			C [][]float64 `json:"c"`
+		}
+		json.Unmarshal(op.Args, &a)
+		type row struct {
+			Generic float64   `json:"generic"`
+			Fixed   []float64 `json:"fixed"` // MedianOfPixels64/256 (float64) and the float32 variants on the tiled sequence; empty if not tileable
+		}
+		var out []row
+		for _, c := range a.C {
+			r := row{Generic: transforms.MedianOfPixels(c)}
+			if 64%len(c) == 0 {
+				t64 := make([]float64, 0, 64)
+				for len(t64) < 64 {
+					t64 = append(t64, c...)
+				}
+				t256 := make([]float64, 0, 256)
+				for len(t256) < 256 {
+					t256 = append(t256, c...)
+				}
+				f64 := make([]float32, 64)
+				for i, v := range t64 {
+					f64[i] = float32(v)
+				}
+				f256 := make([]float32, 256)
+				for i, v := range t256 {
+					f256[i] = float32(v)
+				}
+				r.Fixed = []float64{transforms.MedianOfPixels64(t64), transforms.MedianOfPixels256(t256),
+					float64(transforms32.MedianOfPixels64(f64)), float64(transforms32.MedianOfPixels256(f256))}
+			}
+			out = append(out, r)
+		}
+		JSON(obs, out)
+	})
+	// distance: PHash256 / PHash64 distances of described bit patterns
+	Register("distance", func(op *core.Op, obs *core.Obs) {
+		var a struct {
+			D []struct {
+				W1, B1, W2, B2 int
+				Rel            string
+			} `json:"d"`
+			Seed int64 `json:"seed"`
+		}
+		json.Unmarshal(op.Args, &a)
+		type row struct {
+			D256, D256r, D64 int
+		}
+		var out []row
+		for _, d := range a.D {
+			var x, y imagehash.PHash256
+			x[d.W1] = 1 << uint(d.B1)
+			switch d.Rel {
+			case "same":
+				y = x
+			case "complement":
+				for k := range y {
+					y[k] = ^x[k]
+				}
+			default:
+				y[d.W2] = 1 << uint(d.B2)
+			}
+			r := row{D256: int(x.Distance(y)), D256r: int(y.Distance(x)), D64: -1}
+			if d.W1 == 0 && (d.W2 == 0 || d.Rel != "bits") {
+				r.D64 = int(imagehash.PHash64(x[0]).Distance(imagehash.PHash64(y[0])))
+			}
+			out = append(out, r)
+		}
+		// seeded dense patterns: distance = popcount(xor), symmetry, triangle inequality
+		rng := rand.New(rand.NewSource(a.Seed))
+		bad := []string{}
+		pop := func(v uint64) (n int) {
+			for ; v != 0; v &= v - 1 {
+				n++
+			}
+			return
+		}
+		for k := 0; k < 3000; k++ {
+			var p, q, t imagehash.PHash256
+			for w := range p {
+				p[w], q[w], t[w] = rng.Uint64(), rng.Uint64(), rng.Uint64()
+				if k%5 == 0 {
+					q[w] = p[w] ^ (1 << uint(rng.Intn(64)))
+				}
+			}
+			want := 0
+			for w := range p {
+				want += pop(p[w] ^ q[w])
+			}
+			if int(p.Distance(q)) != want || int(q.Distance(p)) != want || p.Distance(p) != 0 {
+				bad = append(bad, fmt.Sprintf("PHash256 distance %d / %d, popcount(xor) = %d", p.Distance(q), q.Distance(p), want))
+			}
+			if p.Distance(t) > p.Distance(q)+q.Distance(t) {
+				bad = append(bad, "PHash256 triangle inequality violated")
+			}
+			a64, b64 := imagehash.PHash64(p[0]), imagehash.PHash64(q[0])
+			if int(a64.Distance(b64)) != pop(p[0]^q[0]) || int(b64.Distance(a64)) != pop(p[0]^q[0]) || a64.Distance(a64) != 0 {
+				bad = append(bad, fmt.Sprintf("PHash64 distance %d, popcount(xor) = %d", a64.Distance(b64), pop(p[0]^q[0])))
+			}
+			if len(bad) > 10 {
+				break
+			}
+		}
+		JSON(obs, map[string]interface{}{"rows": out, "bad": bad})
+	})
+}
+
+// naive float64 DCT-II coefficients (unscaled) of the luminance of an RGBA/NRGBA/Gray image:
+// C[v][u] = sum_y sum_x g[y][x] cos(pi(2x+1)u/2N) cos(pi(2y+1)v/2N), flattened row-major (v*m+u), m = 8 or 16
+func oracleCoefficients(img image.Image, n, m int) ([]float64, float64) {
+	b := img.Bounds()
+	g := make([]float64, n*n)
+	l1 := 0.0
+	for y := 0; y < n; y++ {
+		for x := 0; x < n; x++ {
+			r, gg, bb, _ := img.At(b.Min.X+x, b.Min.Y+y).RGBA()
+			v := 0.299*float64(r>>8) + 0.587*float64(gg>>8) + 0.114*float64(bb>>8)
+			g[y*n+x] = v
+			l1 += math.Abs(v)
+		}
+	}
+	cosT := make([]float64, n*m)
+	for k := 0; k < m; k++ {
+		for x := 0; x < n; x++ {
+			cosT[k*n+x] = math.Cos(math.Pi * float64(2*x+1) * float64(k) / float64(2*n))
+		}
+	}
+	rows := make([]float64, n*m) // rows[y][u]
+	for y := 0; y < n; y++ {
+		for u := 0; u < m; u++ {
+			s := 0.0
+			for x := 0; x < n; x++ {
+				s += g[y*n+x] * cosT[u*n+x]
+			}
+			rows[y*m+u] = s
+		}
+	}
+	c := make([]float64, m*m)
+	for v := 0; v < m; v++ {
+		for u := 0; u < m; u++ {
+			s := 0.0
+			for y := 0; y < n; y++ {
+				s += rows[y*m+u] * cosT[v*n+y]
+			}
+			c[v*m+u] = s
+		}
+	}
+	return c, l1
+}
+
+func init() {
+	Register("hashoracle", func(op *core.Op, obs *core.Obs) {
+		var a struct {
+			Img ImgDesc `json:"img"`
+		}
+		json.Unmarshal(op.Args, &a)
+		img := BuildImage(&a.Img)
+		n, m := a.Img.W, 8
+		fns := []string{"NewPHash64", "NewPHash64Alt"}
+		if n == 256 {
+			m = 16
+			fns = []string{"NewPHash256", "NewPHash256Alt"}
+		}
+		c, l1 := oracleCoefficients(img, n, m)
+		res := map[string]interface{}{"c": c, "l1": l1}
+		for _, fn := range fns {
+			h, err := RunHash(&hashArgs{Fn: fn, Img: a.Img})
+			if err != nil {
+				res[fn] = "error: " + err.Error()
+			} else {
+				res[fn] = h
+			}
+		}
+		JSON(obs, res)
+	})
+}
+
+// YGeom is one plane geometry emitted by spec/YCbCr.tla.
+type YGeom struct {
+	Ratio int `json:"ratio"`
+	MinX  int `json:"minX"`
+	MinY  int `json:"minY"`
+	W     int `json:"w"`
+	YS    int `json:"ys"`
+	CS    int `json:"cs"`
+}
+
+// buildYCbCr lays the planes out exactly as the geometry says, inside larger backing arrays with guard zones.
+func buildYCbCr(g *YGeom, seed int64, junk int64) (*image.YCbCr, []byte, []byte, []byte, int) {
+	const guard = 4096
+	rect := image.Rect(g.MinX, g.MinY, g.MinX+g.W, g.MinY+g.W)
+	proto := &image.YCbCr{SubsampleRatio: ratios[g.Ratio], YStride: g.YS, CStride: g.CS, Rect: rect}
+	// plane lengths: rows needed times stride
+	ch := 0
+	for y := rect.Min.Y; y < rect.Max.Y; y++ {
+		if r := proto.COffset(rect.Min.X, y)/g.CS + 1; r > ch {
+			ch = r
+		}
+	}
+	lenY, lenC := g.YS*g.W, g.CS*ch
+	jr := rand.New(rand.NewSource(junk))
+	mk := func(n int) []byte {
+		b := make([]byte, n+2*guard)
+		jr.Read(b)
+		return b
+	}
+	by, bcb, bcr := mk(lenY), mk(lenC), mk(lenC)
+	img := &image.YCbCr{Y: by[guard : guard+lenY : guard+lenY], Cb: bcb[guard : guard+lenC : guard+lenC], Cr: bcr[guard : guard+lenC : guard+lenC],
+		YStride: g.YS, CStride: g.CS, SubsampleRatio: ratios[g.Ratio], Rect: rect}
+	cr := rand.New(rand.NewSource(seed))
+	content := make([]byte, g.W*g.W*3)
+	cr.Read(content)
+	for y := 0; y < g.W; y++ {
+		for x := 0; x < g.W; x++ {
+			img.Y[img.YOffset(g.MinX+x, g.MinY+y)] = content[(y*g.W+x)*3]
+		}
+	}
+	// chroma cells are written once per cell (first luma position that maps to it, row-major)
+	seen := map[int]bool{}
+	for y := 0; y < g.W; y++ {
+		for x := 0; x < g.W; x++ {
+			ci := img.COffset(g.MinX+x, g.MinY+y)
+			if !seen[ci] {
+				seen[ci] = true
+				img.Cb[ci], img.Cr[ci] = content[(y*g.W+x)*3+1], content[(y*g.W+x)*3+2]
+			}
+		}
+	}
+	return img, by, bcb, bcr, guard
+}
+
+func grayOf(yy, cb, cr uint8) float64 {
+	yy1 := int32(yy) * 0x10101
+	cb1 := int32(cb) - 128
+	cr1 := int32(cr) - 128
+	r := yy1 + 91881*cr1
+	g := yy1 - 22554*cb1 - 46802*cr1
+	b := yy1 + 116130*cb1
+	return 0.299*float64(r/257) + 0.587*float64(g/257) + 0.114*float64(b>>8)
+}
+
+func init() {
+	Register("ycbcr", func(op *core.Op, obs *core.Obs) {
+		var a struct {
+			G    YGeom `json:"g"`
+			Seed int64 `json:"seed"`
+		}
+		json.Unmarshal(op.Args, &a)
+		g := &a.G
+		const dguard = 4096
+		run := func(junk int64) (out []float32, bad []string, srcTouched bool) {
+			img, by, bcb, bcr, guard := buildYCbCr(g, a.Seed, junk)
+			snap := func(b []byte) ([]byte, []byte) {
+				return append([]byte{}, b[:guard]...), append([]byte{}, b[len(b)-guard:]...)
+			}
+			y0, y1 := snap(by)
+			cb0, cb1 := snap(bcb)
+			cr0, cr1 := snap(bcr)
+			back := make([]float32, g.W*g.W+2*dguard)
+			for i := range back {
+				back[i] = -12345.5
+			}
+			dst := back[dguard : dguard+g.W*g.W]
+			transforms32.ImageToGray(img, &dst)
+			for i := 0; i < dguard; i++ {
+				if back[i] != -12345.5 || back[len(back)-1-i] != -12345.5 {
+					bad = append(bad, fmt.Sprintf("the conversion wrote outside the %d-pixel destination buffer (guard cell %d)", g.W*g.W, i))
+					break
+				}
+			}
+			eq := func(a, b []byte) bool { return string(a) == string(b) }
+			ya, yb := snap(by)
+			cba, cbb := snap(bcb)
+			cra, crb := snap(bcr)
+			if !eq(y0, ya) || !eq(y1, yb) || !eq(cb0, cba) || !eq(cb1, cbb) || !eq(cr0, cra) || !eq(cr1, crb) {
+				srcTouched = true
+			}
+			// the float64 conversion behind NewPHash64 / NewPHash256
+			p64 := make([]float64, g.W*g.W)
+			transforms.Rgb2GrayFast(img, &p64)
+			for y := 0; y < g.W && len(bad) < 4; y++ {
+				for x := 0; x < g.W; x++ {
+					c := img.YCbCrAt(g.MinX+x, g.MinY+y)
+					if want := grayOf(c.Y, c.Cb, c.Cr); math.Abs(p64[y*g.W+x]-want) > 2.0 {
+						bad = append(bad, fmt.Sprintf("float64 conversion, pixel (%d,%d): luminance %.1f, the pixel at that coordinate gives %.1f", x, y, p64[y*g.W+x], want))
+						break
+					}
+				}
+			}
+			// the portable conversion and the independent per-pixel expectation
+			port := make([]float32, g.W*g.W)
+			transforms32.VerifPortableYCbCrToGray(img, port)
+			for y := 0; y < g.W && len(bad) < 4; y++ {
+				for x := 0; x < g.W; x++ {
+					c := img.YCbCrAt(g.MinX+x, g.MinY+y)
+					want := grayOf(c.Y, c.Cb, c.Cr)
+					if math.Abs(float64(dst[y*g.W+x])-want) > 2.0 {
+						bad = append(bad, fmt.Sprintf("pixel (%d,%d): luminance %.1f, the pixel at that coordinate gives %.1f", x, y, dst[y*g.W+x], want))
+						break
+					}
+					if math.Abs(float64(dst[y*g.W+x])-float64(port[y*g.W+x])) > 2.0 {
+						bad = append(bad, fmt.Sprintf("pixel (%d,%d): luminance %.1f, portable conversion %.1f", x, y, dst[y*g.W+x], port[y*g.W+x]))
+						break
+					}
+				}
+			}
+			return append([]float32{}, dst...), bad, srcTouched
+		}
+		out1, bad, touched := run(1)
+		out2, _, _ := run(2) // same rectangle content, different bytes around the planes
+		for i := range out1 {
+			if out1[i] != out2[i] {
+				bad = append(bad, fmt.Sprintf("pixel %d depends on bytes outside the image planes (%.1f vs %.1f with other guard-zone contents)", i, out1[i], out2[i]))
+				break
+			}
+		}
+		if touched {
+			bad = append(bad, "the conversion modified bytes around the source planes")
+		}
+		JSON(obs, map[string]interface{}{"bad": bad, "asm": transforms32.FlagUseASM})
 	})
 }
